@@ -10,6 +10,9 @@ Proof. apply hcurl_ori_ok_intro. intros a b. unfold gen_hcurl_ori. ring. Qed.
 Lemma tie_hdiv_ori : hdiv_ori_ok gen_hdiv_ori.
 Proof. apply hdiv_ori_ok_intro. intros a b. unfold gen_hdiv_ori. ring. Qed.
 
+Lemma tie_sorted_ori_plus (a b : Z) : (a < b)%Z -> gen_hcurl_ori a b = 1%Z.
+Proof. intros H. unfold gen_hcurl_ori, b2z. destruct (Z.gtb_spec a b); lia. Qed.
+
 (* MeshTri1 sorts every cell; the local facets of RefTri list their local vertices ascending *)
 Lemma tie_tri_sorted : gen_sort_t_MeshTri1 = true.
 Proof. reflexivity. Qed.
